@@ -333,6 +333,7 @@ fn decode(t: &mut Tape) -> Case {
         p.widths = vec![8, 16, 32, 64];
     }
     p.index_gaps_permille = 200;
+    p.nop_placeholders = true;
     let g = gen_fn(t, &p);
     let mut spec = g.spec;
     let mut pool = g.pool;
